@@ -748,3 +748,147 @@ def oracle_xrow(line, out):
     if read != want_read:
         return f"read back {read[:200]!r}, written record is {want_read[:200]!r}"
     return None
+
+
+# ------------------------------------------------------------------ C01 / C02 / C04 on CANDIDATE rows
+def parse_candidate(out):
+    kv = dict(t.split("=", 1) for t in out.split(" ") if "=" in t)
+    segs = parse_segs(kv.get("SEG", ""))
+    return kv, segs
+
+
+def oracle_candidate_valid(line, out):
+    op, kv = kv_of(line)
+    if out.startswith("ERR"):
+        if out == "ERR ValueError" and int(kv["su"]) > 0:
+            return None
+        return f"exception {out}"
+    okv, segs = parse_candidate(out)
+    ref, qry = map_of(kv["REF"]), map_of(kv["QRY"])
+    rev = kv["rev"] == "1"
+    rl = dict(labels_of(ref, False))
+    ql = dict(labels_of(qry, rev))
+    pairs = [it for _, items in segs for it in items if it[0] == "P"]
+    for p in pairs:
+        if rl.get(p[1]) != p[2] or ql.get(p[3]) != p[4]:
+            return f"pair ({p[1]},{p[3]}) does not name real labels"
+    rs = [p[1] for p in pairs]
+    qs = [p[3] for p in pairs]
+    if len(set(rs)) != len(rs):
+        return "a reference label is used twice in a candidate alignment"
+    if len(set(qs)) != len(qs):
+        return "a query label is used twice in a candidate alignment"
+    if any(a >= b for a, b in zip(rs, rs[1:])):
+        return "candidate pairs not in strictly ascending reference order"
+    if any((a <= b) if rev else (a >= b) for a, b in zip(qs, qs[1:])):
+        return "candidate query label numbers not strictly monotone"
+    return None
+
+
+def candidate_to_resolveall(line):
+    """the RESOLVEALL line of the same candidate (segments of every peak from the real factory)"""
+    import codec
+    import realops
+    op, kv = kv_of(line)
+    P = realops.params(kv)
+    al = realops.make_aligner(P, realops.frac(kv["mult"]), int(kv["var"]), int(kv["it"]))
+    segs = []
+    for p in ints(kv.get("peaks", "")):
+        segs += al.getSegments(kv["rev"] == "1", codec.Peak(p, 1.0), codec.parse_map(kv["QRY"]), codec.parse_map(kv["REF"]))
+    return (f"RESOLVEALL sp={kv['sp']} dp={kv['dp']} su={kv['su']} md={kv['md']} ms={kv['ms']} bs={kv['bs']} "
+            f"mult={kv['mult']} var={kv['var']} SEG={codec.show_segs(segs)}")
+
+
+def classify_candidate(line, out, model_out, msg):
+    if "twice" not in msg and "ascending" not in msg and "monotone" not in msg:
+        return None
+    try:
+        rl = candidate_to_resolveall(line)
+        import realops
+        rout = realops.real_exec(rl)
+        rmsg = oracle_resolveall(rl, rout)
+        if not rmsg:
+            return None
+        return classify_resolveall(rl, rout, None, rmsg)
+    except Exception:
+        return None
+
+
+def oracle_candidate_header(line, out):
+    """C02 on a candidate row: header fields agree with the listed pairs and the maps"""
+    op, kv = kv_of(line)
+    if out.startswith("ERR"):
+        return None
+    okv, segs = parse_candidate(out)
+    ref, qry = map_of(kv["REF"]), map_of(kv["QRY"])
+    rev = kv["rev"] == "1"
+    if int(okv["q"]) != qry[0] or int(okv["r"]) != ref[0] or int(okv["ql"]) != qry[1] or int(okv["rl"]) != ref[1]:
+        return "ids / lengths of the row are not those of the maps"
+    if (okv["rev"] == "1") != rev:
+        return "row orientation differs from the strand aligned"
+    pairs = [it for _, items in segs for it in items if it[0] == "P"]
+    if not pairs or oracle_candidate_valid(line, out):
+        return None
+    first, last = pairs[0], pairs[-1]
+    if int(okv["rs"]) != first[2] or int(okv["re"]) != last[2]:
+        return "reference start/end are not the coordinates of the first/last listed reference labels"
+    s, e = (last[4], first[4]) if rev else (first[4], last[4])
+    if int(okv["qs"]) != s or int(okv["qe"]) != e:
+        return "query start/end are not those of the outermost aligned query labels"
+    return None
+
+
+def oracle_candidate_conf(line, out):
+    """C04 on a candidate row (independent recomputation from the raw maps, peaks, parameters)"""
+    op, kv = kv_of(line)
+    if out.startswith("ERR"):
+        return None
+    P = params_of(kv)
+    okv, segs = parse_candidate(out)
+    ref, qry = map_of(kv["REF"]), map_of(kv["QRY"])
+    rev = kv["rev"] == "1"
+    rl = dict(labels_of(ref, False))
+    qlab = dict(labels_of(qry, rev))
+    total = 0
+    for peak, items in segs:
+        if not items:
+            continue
+        seen_r, seen_q, span = set(), set(), []
+        for it in items:
+            if it[0] == "P":
+                if it[1] not in rl or it[3] not in qlab:
+                    return "pair names a label that does not exist"
+                off = qlab[it[3]] - (rl[it[1]] - peak)
+                if off != it[5]:
+                    return f"recorded offset {it[5]} is not query - (reference - peak) = {off}"
+                if abs(off) > P["md"]:
+                    return f"pair offset {off} exceeds maxPairDistance"
+                total += P["sp"] - P["dp"] * abs(off)
+                kr, kq = it[1], it[3]
+                span.append(rl[it[1]])
+            elif it[0] == "R":
+                total += P["su"]
+                kr, kq = it[1], None
+                span.append(rl.get(it[1], it[2]))
+            else:
+                total += P["su"]
+                kr, kq = None, it[1]
+                span.append(qlab.get(it[1], it[2]) + peak)
+            if kr is not None:
+                if kr in seen_r:
+                    return "a reference label is counted twice in one segment"
+                seen_r.add(kr)
+            if kq is not None:
+                if kq in seen_q:
+                    return "a query label is counted twice in one segment"
+                seen_q.add(kq)
+        lo, hi = min(span), max(span)
+        for s, p in rl.items():
+            if lo < p < hi and s not in seen_r:
+                return f"reference label {s} inside a segment's span is unaccounted for"
+        for s, p in qlab.items():
+            if lo < p + peak < hi and s not in seen_q:
+                return f"query label {s} inside a segment's span is unaccounted for"
+    if int(okv["conf"]) != total:
+        return f"confidence {okv['conf']} != configured score of what is reported {total}"
+    return None
